@@ -55,9 +55,11 @@ MARKERS = {
 
 
 def build_input(lines, i, marker, content, term, terminated=True):
+    """terminated: True (closed region), False (region runs to the end of the file), "nonl" (the same, and the file does not
+    end in a line terminator)"""
     off, on = MARKERS[marker][0], MARKERS[marker][1]
-    ls = lines[:i] + [off] + content + ([on] + lines[i:] if terminated else [])
-    return (term.join(ls) + term).encode("latin-1")
+    ls = lines[:i] + [off] + content + ([on] + lines[i:] if terminated is True else [])
+    return (term.join(ls) + ("" if terminated == "nonl" else term)).encode("latin-1")
 
 
 def split_lines(b):
@@ -97,7 +99,7 @@ def locate(out_lines, marker, terminated):
             if b"*/" in out_lines[k]:
                 a = k
                 break
-    if not terminated:
+    if terminated is not True:
         return a, len(out_lines)
     for k in range(a + 1, len(out_lines)):
         if onk in out_lines[k]:
@@ -119,7 +121,7 @@ def evaluate(src_lines, i, marker, content, out, terminated):
     a, b = loc
     got = [norm(l) for l in ol[a + 1:b]]
     want = [norm(l.encode("latin-1")) for l in content]
-    if not terminated:
+    if terminated is not True:
         # an unterminated region runs to the end of the file; trailing blank lines are the file's end, not region text
         while got and got[-1] == b"":
             got.pop()
@@ -242,6 +244,9 @@ def check(ctx):
                     jobs.append((name, lang, lines, i, marker, "\r\n", True, "defaults", {}, contents_q[:4] if quick else contents_all, False))
                 if i in (0, len(lines)) or not quick:
                     jobs.append((name, lang, lines, i, marker, "\n", False, "defaults", {}, contents_q[:5] if quick else contents_all, False))
+                    # ... and as the very end of a file that has no final line terminator (contents ending in blanks / tabs included)
+                    nonl = [c for c in contents_all if c[0] in ("tabs-trailing", "misindented", "tidy", "col1-comments", "not-code")]
+                    jobs.append((name, lang, lines, i, marker, "\n", "nonl", "defaults", {}, nonl, False))
     # single deviations over the read set
     order = ("misindented", "col1-comments", "backslash-cont", "blank-runs", "lone-close-brace", "ws-only-lines")
     sweepc = [(n, dict(CONTENTS)[n]) for n in order]
